@@ -39,8 +39,7 @@ let h_listing req =
   let spec = List.map (fun n ->
       (string_of_int n,
        Arr (List.map (fun f -> Arr [ jn f.f_name; jlist j_row (spec_rows (nat_of_int n) (num_lines f) f.f_name ems) ]) cm))) ns in
-  let guard = List.map (fun n -> (string_of_int n, Bool (match to_listing_checked cm sm segs (nat_of_int n) with Some _ -> true | None -> false))) ns in
-  Obj [ ("model", Obj model); ("spec", Obj spec); ("text", Obj text); ("accepted", Obj guard) ]
+  Obj [ ("model", Obj model); ("spec", Obj spec); ("text", Obj text) ]
 
 let h_queries req =
   let cm = List.map file_of (to_list (field req "files")) in
@@ -82,4 +81,8 @@ let h_lstnames req =
   let paths = List.map (fun j -> match to_list j with [ d; s ] -> (to_n d, to_n s) | _ -> (to_n Null, to_n Null)) (to_list (field req "paths")) in
   Obj [ ("collision", Bool (known_listing_name_collision paths)) ]
 
-let () = main_loop [ ("listing", h_listing); ("queries", h_queries); ("emit", h_emit); ("lstnames", h_lstnames) ]
+(* the width guard at the head of to_listing *)
+let h_widths req =
+  Obj [ ("accepted", Obj (List.map (fun j -> let n = to_int j in (string_of_int n, Bool (width_accepted (nat_of_int n)))) (to_list (field req "ns")))) ]
+
+let () = main_loop [ ("widths", h_widths); ("listing", h_listing); ("queries", h_queries); ("emit", h_emit); ("lstnames", h_lstnames) ]
